@@ -14,6 +14,7 @@ def cost (d : D) : Cmd → Nat
   | .copy _ p => d.nGpus + 2 * p + max d.cycH2D d.cycD2H + 3
   | .unhandled => 1
   | .mcopy => 1
+  | .fl => d.nGpus + 2
 
 /-- a running head has been paid for except its completion -/
 def qCost (d : D) (q : Q) : Nat :=
@@ -183,6 +184,16 @@ theorem procQ_ok (d : D) (i : Nat) (q : Q) :
       | mcopy =>
         simp only [procQ, Bool.false_eq_true, if_false, hnone, qCost, List.map_cons, List.sum_cons, cost]
         omega
+      | fl =>
+        have := pM_applyStarted_none d ctx (List.replicate d.nGpus (.flush i)) [] false
+        simp only [List.length_replicate, List.length_nil] at this
+        by_cases hz : d.nGpus = 0
+        · rw [hz] at this
+          simp only [procQ, Bool.false_eq_true, if_false, hz, if_true, this, qCost, List.map_cons, List.sum_cons, cost]
+          omega
+        · simp only [procQ, Bool.false_eq_true, if_false, hz, this, qCost, List.map_cons, List.sum_cons, cost,
+            List.tail_cons, if_true]
+          omega
       | kern n =>
         cases n with
         | zero =>
